@@ -62,7 +62,9 @@ def cases(draw):
         blobs=['none', 'float', 'int', 'bool', 'S8', 'two', 'struct',
                'two_single', 'array'],
         priors=['identity', 'identity', 'inplace', 'dictfn', 'Prior']))
-    n_batch = draw(st.sampled_from([1, 2, 3, 5, 8, 13]))
+    # large batches drain a bound's 1000-point proposal cache several times
+    # within one case (cache refills between two checkpoints)
+    n_batch = draw(st.sampled_from([1, 2, 3, 5, 8, 13, 100, 250]))
     cfg = draw(sl.configs(d, networks=(0, 0, 1), pools=('none',),
                           batch=st.just(n_batch), small_update=False,
                           max_live=int(min(80, max(4 * d + 4, 5 * n_batch)))))
